@@ -560,6 +560,22 @@ def abl_unify_flip(case):
     return dict(case, history=[e for e in case["history"] if not is_unify_flip(e)])
 
 
+def pre_masked_unoptimized(case, result):
+    """F28: a masked source in the program and array.optimize-graph=False in effect somewhere in the
+    history (the generic, un-fused kernels run numpy.ma's own semantics)."""
+    if not any(sp.get("masked") for sp in case["recipe"]["sources"].values()):
+        return False
+    return any(e["ev"] == "config" and e.get("key") == "array.optimize-graph" and e.get("value") is False
+               for e in case.get("history", []))
+
+
+def abl_unmask(case):
+    """The same case over plain (unmasked) sources."""
+    rec = dict(case["recipe"])
+    rec["sources"] = {k: dict(v, masked=False) for k, v in rec["sources"].items()}
+    return dict(case, recipe=rec)
+
+
 def pre_userfn(case, result):
     return has_nonelementwise_userfn(case)
 
